@@ -81,7 +81,7 @@ func comps(extra map[string]string) map[string]string {
 }
 
 var props = map[string]propCfg{
-	"C18": {World: "conc", QuickRuns: 1500, ThoroughRuns: 600000, QuickRace: 300, ThoroughRace: 100000, Instrument: true,
+	"C18": {World: "conc", QuickRuns: 1500, ThoroughRuns: 300000, QuickRace: 300, ThoroughRace: 50000, Instrument: true,
 		Rule:         "one run = one shared value (parsed from reference bytes by one of the 38 entry points, or built by a signing constructor) read by 2..4 tasks, each executing 1..4 scripted read-only calls (every exported argument-free method found by reflection, Equals/Equal against a private twin, full recursive observation, package-level size lookups, parsing the same bytes again) while a scripted schedule of 0..6 preemptions hands control from task to task at yield points inserted before every statement of the library (text splice into a scratch copy; about 4.5k sites). Three oracles per run: result equality with solo execution on a private instance; deep memory snapshot (to capacity) of the shared value and of every package-level variable before/after; and, in a -race build of the same scripts, the race detector with a hand-over it cannot see. Non-trivial = at least one preemption happened; distinct = distinct run fingerprints, which include a hash of the executed (yield ordinal, from-task, to-task, site) switch sequence.",
 		Assumptions:  []string{"dependencies (go-i2p/crypto, logger, oops, stdlib) are not instrumented and run atomically between yields", "statement granularity is the finest interleaving produced; the snapshot and race oracles do not need the bad interleaving to occur", "the norace hand-over relies on amd64 TSO and on the compiler not moving memory operations across a non-inlined call", "objects owned by dependencies (the logger behind each package's log variable) are compared by pointer identity only"},
 		Components:   comps(map[string]string{"scheduler": "simulated: real goroutines, one runnable at a time, hand-over only at inserted yield points in scripted order (spin on a plain word in //go:norace functions)", "yield points": "go/parser-located text splice into the scratch copy of /repo made by the check; the repository's own suite passes on the instrumented copy", "race detector": "Go's ThreadSanitizer runtime used as an in-simulation oracle over the controlled schedule", "clock": "real clock; every expiry in the generated values is kept decades away from it so that time-dependent accessors are constant (a synctest bubble cannot be used here: a detector report fails the bubble and aborts the run)"}),
